@@ -30,6 +30,9 @@ type verifC17Op struct {
 	App    string   `json:"app"`
 	Token  string   `json:"token"`
 	Tokens []string `json:"tokens"`
+	// burst: per caller a context deadline in milliseconds (0: none). When present the first caller is started
+	// alone (it becomes the flight leader), the store's answer is held until every deadline has passed.
+	CtxMs []int `json:"ctx_ms"`
 }
 
 type verifC17Case struct {
@@ -82,9 +85,9 @@ func TestVerifDriverC17(t *testing.T) {
 			}
 			return app
 		}
-		call := func(app, token string) int {
+		callIn := func(base context.Context, app, token string) int {
 			app = name(app)
-			ctx := metadata.NewIncomingContext(context.Background(),
+			ctx := metadata.NewIncomingContext(base,
 				metadata.MD{appKey: []string{app}, tokenKey: []string{token}})
 			err := a.Authenticate(ctx)
 			if err == nil {
@@ -95,6 +98,7 @@ func TestVerifDriverC17(t *testing.T) {
 			}
 			return -1
 		}
+		call := func(app, token string) int { return callIn(context.Background(), app, token) }
 		hung := ""
 		for _, op := range c.Ops {
 			switch op.Op {
@@ -129,13 +133,33 @@ func TestVerifDriverC17(t *testing.T) {
 				res := make([]int, n)
 				var done int32
 				fin := make(chan struct{})
+				maxMs := 0
 				for i := 0; i < n; i++ {
-					go func(i int) {
-						res[i] = call(op.App, op.Tokens[i])
+					ms := 0
+					if i < len(op.CtxMs) {
+						ms = op.CtxMs[i]
+					}
+					if ms > maxMs {
+						maxMs = ms
+					}
+					go func(i, ms int) {
+						base := context.Background()
+						if ms > 0 {
+							var cancel context.CancelFunc
+							base, cancel = context.WithTimeout(base, time.Duration(ms)*time.Millisecond)
+							defer cancel()
+						}
+						res[i] = callIn(base, op.App, op.Tokens[i])
 						if atomic.AddInt32(&done, 1) == int32(n) {
 							close(fin)
 						}
-					}(i)
+					}(i, ms)
+					if i == 0 && len(op.CtxMs) > 0 { // the first caller alone: it leads the flight
+						lead := time.Now().Add(2 * time.Second)
+						for atomic.LoadInt32(&hgets) == before && atomic.LoadInt32(&done) == 0 && time.Now().Before(lead) {
+							time.Sleep(200 * time.Microsecond)
+						}
+					}
 				}
 				// every caller is on its way once it has finished (cached), holds a lookup, or waits for one:
 				// wait for the first lookup or completion, then give the others time to pile up (bounded)
@@ -146,6 +170,9 @@ func TestVerifDriverC17(t *testing.T) {
 				pile := time.Now().Add(40 * time.Millisecond)
 				for time.Now().Before(pile) && int(atomic.LoadInt32(&hgets)-before) < n && atomic.LoadInt32(&done) < int32(n) {
 					time.Sleep(500 * time.Microsecond)
+				}
+				if maxMs > 0 { // the store stays slow until every caller's deadline has passed
+					time.Sleep(time.Duration(maxMs+15) * time.Millisecond)
 				}
 				gate.Store((chan struct{})(nil))
 				close(g)
